@@ -11,7 +11,7 @@ from streamflow.workflow.token import TerminationToken
 
 from vf.engine import progs
 from vf.engine.detloop import Chaos
-from vf.engine.harness import FnTransformer, LoopConditional, PredConditional, to_token
+from vf.engine.harness import FnTransformer, LoopConditional, PredConditional, ShuffleTransformer, to_token
 
 
 class Built:
@@ -91,6 +91,15 @@ def build(wf: Workflow, blocks: list[dict], chaos: Chaos | None, *, workdir: str
             P[b["out"]] = out
         elif op == "loop":
             P[b["out"]] = _build_loop(wf, name, P[b["src"]], b["m"], b["method"], chaos, body_fail_tags=faults.get(str(n), ()))
+        elif op == "shuffle":
+            sh = wf.create_step(ShuffleTransformer, name=name, ranks=b["ranks"], window=b["window"])
+            sh.add_input_port("x", P[b["src"]])
+            out = wf.create_port()
+            sh.add_output_port("x", out)
+            P[b["out"]] = out
+        elif op == "join":
+            ins = {"a": P[b["srcs"][0]], "b": P[b["srcs"][1]]}
+            P[b["out"]] = _fn(wf, name, lambda d: {"out": progs.zip_apply([d["a"], d["b"]])}, chaos, ins, fail_tags=faults.get(str(n), ()))
         elif op == "cross":
             P[b["out"]] = _build_cross(wf, name, P[b["srcs"][0]], P[b["srcs"][1]], b["mode"], chaos)
         elif op == "exec":
